@@ -95,14 +95,25 @@ CHECKS["C14"] = dict(
          "with/without --enable-p2 in the thorough tier); iteration orders CPython does not exhibit for these seeds are not explored.",
     design_ref="5/C14, 6", engine="Pipeline")
 
+CHECKS["C06"] = dict(
+    category="model_checking",
+    technique="GIRControl (TLA+ GIR semantics with a last-definition history variable) explored by TLC over all paths with loops <= 1 iteration + ReachingDefs.tla (classical fixpoint over lian's CFG, computed by TLC) against lian's in_symbol_bits",
+    text="Soundness: along every path of the GIR semantics the last executed definition of each used variable must be among the definitions "
+         "lian stores as reaching that statement (stmt_status_p3). Precision: TLC computes the classical reaching-definitions fixpoint over "
+         "lian's own CFG; lian's sets must be contained in it and equal to it on loop-free methods. Exhaustive python methods over two "
+         "variables with branches, loops, break/continue, early returns.",
+    note="Definitions identified by (name, statement); python frontend; loops are a listed known finding (loop headers are never revisited), so the "
+         "verdict currently rests on the loop-free half of the family for anything beyond that finding.",
+    design_ref="5/C06", engine="GIRControl")
+
 NOT_YET = {
 }
 
 ENGINES = [
     dict(name="Pipeline", path="specs/Pipeline.tla harness/c14.py harness/c14_digest.py",
          serves_properties=["C14"], kind_free_text="deterministic TLA+ spec as trace validator + differential runs"),
-    dict(name="GIRControl", path="specs/GIRControl.tla harness/c04.py harness/skeleton.py harness/girjson.py harness/lianrun.py",
-         serves_properties=["C04"], kind_free_text="executable TLA+ semantics of GIR control flow, TLC as interpreter/explorer"),
+    dict(name="GIRControl", path="specs/GIRControl.tla specs/ReachingDefs.tla harness/c04.py harness/c06.py harness/skeleton.py harness/girjson.py harness/lianrun.py",
+         serves_properties=["C04", "C06"], kind_free_text="executable TLA+ semantics of GIR control flow, TLC as interpreter/explorer"),
     dict(name="FlattenTrace", path="specs/FlattenTrace.tla harness/c03.py harness/corpus.py harness/lianrun.py",
          serves_properties=["C03"], kind_free_text="TLA+ trace spec over emitted GIR rows, TLC"),
     dict(name="Workspace", path="specs/Workspace.tla specs/WorkspaceTrace.tla harness/c18.py",
